@@ -572,12 +572,15 @@ impl EagerAggregation {
         }
         // K = next power of two above max over both sides of key1
         let k1_max = bounds[1];
-        let k = (k1_max as u64 + 1).next_power_of_two() as i64;
+        // Keep K unsigned until the guard has passed: for k1_max >= 2^62 it is 2^63,
+        // which as an i64 is i64::MIN and would make the guard below vacuous.
+        let k = (k1_max as u64 + 1).next_power_of_two();
         let k0_max = bounds[0];
         // Overflow guard
         if (k0_max as i128) * (k as i128) + (k1_max as i128) > i64::MAX as i128 {
             return None;
         }
+        let k = k as i64;
         let pack = |a: &Expr, b: &Expr| -> Expr {
             Expr::BinaryExpr {
                 left: Box::new(Expr::BinaryExpr {
